@@ -467,7 +467,9 @@ fn with_key(rng: &mut Rng, j: &mut J, key: &str, f: impl FnOnce(&mut Rng, &mut J
 fn mutate(rng: &mut Rng, j: &mut J) -> String {
     let mut ps = vec![]; paths(j, &mut vec![], &mut ps);
     let objs: Vec<Vec<usize>> = ps.iter().filter(|p| matches!(at_ref(j, p), J::Obj(l) if !l.is_empty())).cloned().collect();
-    match rng.below(14) {
+    let k = rng.below(14);
+    if objs.is_empty() && matches!(k, 0 | 1 | 5 | 6) { return "none".into(); }
+    match k {
         0 => { let p = rng.pick(&objs).clone(); if let J::Obj(l) = at_mut(j, &p) { let i = rng.below(l.len()); let k = l.remove(i).0; return format!("delete-key:{k}"); } }
         1 => { let p = rng.pick(&objs).clone(); if let J::Obj(l) = at_mut(j, &p) { let i = rng.below(l.len()); let kv = l[i].clone(); let at = rng.below(l.len() + 1); l.insert(at, kv.clone()); return format!("dup-key:{}", kv.0); } }
         2 => { let p = rng.pick(&ps).clone(); *at_mut(j, &p) = J::Null; return "null".into(); }
@@ -669,6 +671,8 @@ fn main() {
             let sel = if gs.is_leaf(&base) { String::new() } else { " { __typename }".to_string() };
             if f0.args.iter().all(|a| !a.ty.is_nonnull() || a.default.is_some()) { docs.push(("shadow-root".into(), format!("mutation {{ {}{} }}\n", f0.name, sel))); }
         }
+        // a non-repeatable built-in directive applied twice: rejected on both routes
+        docs.push(("twice-skip".into(), "query T { __typename @skip(if: true) @skip(if: false) }\n".into()));
         if let Some(b) = unused_builtin.first() { docs.push(("unused-builtin-variable".into(), format!("query Q($v: {b}) {{ __typename }}\n"))); }
         let docs_for_cli: Vec<(String, String)> = docs.clone();
         for (dl, text) in docs {
